@@ -5,11 +5,15 @@
    strings.Cut at the first '=', a line without '=' is an error, the value is
    strings.Trim(after, '''), a later assignment of a key replaces an earlier one.
    No proofs here. *)
-From Apko Require Import Base.Prelude Model.Sbom.
+From Apko Require Import Base.Prelude Base.C11Lib Generated.C11Prov Model.Sbom.
 Open Scope string_scope. Open Scope list_scope.
 
 Definition ch_nl : ascii := ascii_of_N 10.
 Definition ch_cr : ascii := ascii_of_N 13.
+(* the path, the three keys and the three defaults are GENERATED (Generated/C11Prov.v: goextract reads them,
+   by shape, from the function whose result GenerateImageSBOM assigns to opts.OS; pinned by
+   c11_os_release_literals_read_from_source); comment prefix, separator and cutset are written here and
+   compared by the correspondence *)
 Definition ch_quote : ascii := ascii_of_N 34.
 Definition ch_eq : ascii := ascii_of_N 61.
 
@@ -82,10 +86,10 @@ Record release := { rd_id : string; rd_name : string; rd_version : string }.
 (* [f] = the content of /etc/os-release, None when the file does not exist *)
 Definition read_release (f : option string) : res release :=
   match f with
-  | None => Ok {| rd_id := "unknown"; rd_name := "apko-generated image"; rd_version := "unknown" |}
+  | None => Ok {| rd_id := os_release_default_id; rd_name := os_release_default_name; rd_version := os_release_default_version |}
   | Some s =>
       do kv <- parse_lines (scan_lines s) [];
-      Ok {| rd_id := get "ID" kv; rd_name := get "NAME" kv; rd_version := get "VERSION_ID" kv |}
+      Ok {| rd_id := get os_release_key_id kv; rd_name := get os_release_key_name kv; rd_version := get os_release_key_version kv |}
   end.
 
 (* what GenerateImageSBOM puts into opts.OS.Version (a build whose os-release does not parse fails) *)
